@@ -170,6 +170,12 @@ func (v *Vue) evaluateNodeAsElement(ctx VueContext, node *html.Node, depth int) 
 		return result, nil
 	}
 
+	// The member the chain has chosen is emitted once per render when it is
+	// marked v-once, like a marked element outside a chain.
+	if helpers.HasAttr(node, "v-once") && v.onceSeen(ctx, node) {
+		return nil, nil
+	}
+
 	// A <template> chosen by a chain is evaluated exactly like a <template>
 	// outside a chain (see evaluate): an include is included (this is also what a
 	// component shorthand tag carrying v-if has been rewritten into), v-html is
@@ -236,4 +242,21 @@ func (v *Vue) evaluateNodeAsElement(ctx VueContext, node *html.Node, depth int) 
 
 	result = append(result, newNode)
 	return result, nil
+}
+
+// isChainMember reports whether the element is a member of a v-if / v-else-if /
+// v-else chain.
+func isChainMember(node *html.Node) bool {
+	return helpers.HasAttr(node, "v-if") || helpers.HasAttr(node, "v-else-if") || helpers.HasAttr(node, "v-else")
+}
+
+// onceSeen reports whether the v-once element has been emitted in this render
+// already, and records it as emitted when it has not.
+func (v *Vue) onceSeen(ctx VueContext, node *html.Node) bool {
+	id := helpers.GetAttr(node, "v-once-id")
+	if ctx.seen[id] {
+		return true
+	}
+	ctx.seen[id] = true
+	return false
 }
